@@ -229,10 +229,12 @@ func genRule(t *rapid.T, o GenOpts, schema []PredInfo, h PredInfo, exitRule bool
 		labels["recursive-rule"] = true
 	}
 	recursive := nSame > 0
+	guardAnyway := rapid.Bool().Draw(t, "guardAnyway")
 	var guards, filters []Lit
 	guarded := map[string]bool{}
 	guard := func(v string) {
-		if guarded[v] {
+		// only recursive rules need the guard to keep the model finite; half of the other rules get it anyway
+		if guarded[v] || (!recursive && !guardAnyway) {
 			return
 		}
 		guarded[v] = true
@@ -241,10 +243,25 @@ func genRule(t *rapid.T, o GenOpts, schema []PredInfo, h PredInfo, exitRule bool
 	// definitions: arithmetic, constants, structures (each binds a fresh variable)
 	nDef := 0
 	if o.Arith || o.Struct || o.Eq {
-		nDef = rapid.SampledFrom([]int{0, 0, 0, 1, 1, 2}).Draw(t, "nDef")
+		nDef = rapid.SampledFrom([]int{0, 0, 1, 1, 2, 3}).Draw(t, "nDef")
 	}
 	for i := 0; i < nDef; i++ {
-		switch kind := rapid.IntRange(0, 7).Draw(t, "defKind"); {
+		switch kind := rapid.IntRange(0, 9).Draw(t, "defKind"); {
+		case kind >= 8 && o.Eq:
+			// alias: a fresh variable equated with a bound one (variable = variable)
+			typ := rapid.SampledFrom([]byte("nnna")).Draw(t, "aliasType")
+			if len(g.bound[typ]) == 0 {
+				continue
+			}
+			x := rapid.SampledFrom(g.bound[typ]).Draw(t, "aliasOf")
+			z := g.fresh(typ)
+			if rapid.Bool().Draw(t, "aliasFlip") {
+				body = append(body, EqLit(Var(x), Var(z)))
+			} else {
+				body = append(body, EqLit(Var(z), Var(x)))
+			}
+			g.bind(typ, z)
+			labels["eq-alias"] = true
 		case kind <= 2 && o.Arith && len(g.bound['n']) > 0:
 			x := rapid.SampledFrom(g.bound['n']).Draw(t, "ax")
 			fn := rapid.SampledFrom([]string{"fn:plus", "fn:minus", "fn:mult"}).Draw(t, "afn")
@@ -328,7 +345,23 @@ func genRule(t *rapid.T, o GenOpts, schema []PredInfo, h PredInfo, exitRule bool
 	// filters: comparisons, inequalities, equalities between bound things
 	nFil := rapid.SampledFrom([]int{0, 0, 1, 1, 2, 2, 3}).Draw(t, "nFilter")
 	for i := 0; i < nFil; i++ {
-		switch kind := rapid.SampledFrom([]int{0, 0, 1, 1, 2, 3, 3, 3}).Draw(t, "filKind"); {
+		switch kind := rapid.SampledFrom([]int{0, 0, 1, 1, 2, 3, 3, 3, 4}).Draw(t, "filKind"); {
+		case kind == 4 && o.Eq && o.Arith && len(g.bound['n']) > 0:
+			// a constant (or bound variable) compared with a function expression, on either side
+			x := rapid.SampledFrom(g.bound['n']).Draw(t, "efx")
+			guard(x)
+			fn := Fn(rapid.SampledFrom([]string{"fn:plus", "fn:minus", "fn:mult"}).Draw(t, "effn"), Var(x), Num(rapid.Int64Range(0, 2).Draw(t, "efk")))
+			other := g.boundArg('n')
+			if rapid.Bool().Draw(t, "efConst") {
+				other = Const(genValue(t, 'n'))
+			}
+			if rapid.Bool().Draw(t, "efFlip") {
+				filters = append(filters, EqLit(other, fn))
+			} else {
+				filters = append(filters, EqLit(fn, other))
+			}
+			labels["eq-fn-filter"] = true
+			labels["fn"] = true
 		case kind == 0 && o.Cmp && len(g.bound['n']) > 0:
 			op := rapid.SampledFrom([]string{"<", "<=", ">", ">="}).Draw(t, "cmpOp")
 			l := Var(rapid.SampledFrom(g.bound['n']).Draw(t, "cmpL"))
@@ -367,7 +400,7 @@ func genRule(t *rapid.T, o GenOpts, schema []PredInfo, h PredInfo, exitRule bool
 	}
 	// head
 	r := Rule{Head: Atom{Pred: h.Name, Args: []Term{}}}
-	useLet := o.Let && o.Arith && len(g.bound['n']) > 0 && rapid.IntRange(0, 5).Draw(t, "useLet") == 0
+	useLet := o.Let && o.Arith && len(g.bound['n']) > 0 && rapid.IntRange(0, 3).Draw(t, "useLet") == 3
 	letVar := ""
 	if useLet {
 		x := rapid.SampledFrom(g.bound['n']).Draw(t, "letx")
@@ -396,7 +429,6 @@ func genRule(t *rapid.T, o GenOpts, schema []PredInfo, h PredInfo, exitRule bool
 		// the head has no number column: drop the transform
 		r.Let = nil
 	}
-	_ = recursive
 	// assemble: positives and definitions (in dependency order), then guards and filters;
 	// negated atoms optionally anywhere.
 	tail := append(append([]Lit{}, guards...), filters...)
